@@ -140,6 +140,44 @@ def lean_run_file(path, stdin_text=None, timeout=3000, run=False):
     return p.returncode, p.stdout, p.stderr
 
 
+def _blank_comments(text):
+    """Lean source with comments blanked, line numbers preserved. Nesting-aware (Lean allows
+    /- /- -/ -/), covers docstrings (/-- -/, /-! -/) and line comments; string literals are
+    copied verbatim (a `--` or `/-` inside a string is not a comment)."""
+    out, i, n, depth = [], 0, len(text), 0
+    while i < n:
+        two = text[i:i + 2]
+        if two == '/-':
+            depth += 1
+            out.append('  ')
+            i += 2
+        elif two == '-/' and depth:
+            depth -= 1
+            out.append('  ')
+            i += 2
+        elif depth:
+            out.append('\n' if text[i] == '\n' else ' ')
+            i += 1
+        elif two == '--':
+            j = text.find('\n', i)
+            j = n if j < 0 else j
+            out.append(' ' * (j - i))
+            i = j
+        elif text[i:i + 3] == "'\"'":          # the character literal '"'
+            out.append(text[i:i + 3])
+            i += 3
+        elif text[i] == '"':
+            j = i + 1
+            while j < n and text[j] != '"':
+                j += 2 if text[j] == '\\' else 1
+            out.append(text[i:j + 1])
+            i = j + 1
+        else:
+            out.append(text[i])
+            i += 1
+    return ''.join(out)
+
+
 def props_theorems(pid):
     """(name, first_line, last_line) of every theorem in Props/<pid>.lean."""
     path = os.path.join(LEAN, 'OdlModel', 'Props', pid + '.lean')
@@ -148,8 +186,7 @@ def props_theorems(pid):
         text = f.read()
     # block comments / docstrings are blanked (line numbers kept) so that a docstring line that
     # happens to begin with the word "theorem" is not taken for a declaration
-    text = re.sub(r'/-.*?-/', lambda m: '\n' * m.group(0).count('\n'), text, flags=re.S)
-    lines = text.split('\n')
+    lines = _blank_comments(text).split('\n')
     starts = []
     for i, l in enumerate(lines, 1):
         m = re.match(r'^(?:private\s+|protected\s+)?theorem\s+(\S+)', l)
@@ -168,9 +205,8 @@ def source_audit(files):
         with open(path) as f:
             text = f.read()
         # strip block comments and line comments
-        text2 = re.sub(r'/-.*?-/', lambda m: '\n' * m.group(0).count('\n'), text, flags=re.S)
+        text2 = _blank_comments(text)
         for i, l in enumerate(text2.split('\n'), 1):
-            l = re.sub(r'--.*$', '', l)
             if FORBIDDEN.search(l):
                 bad.append('{}:{}: {}'.format(os.path.relpath(path, LEAN), i, l.strip()))
     return bad
